@@ -27,9 +27,10 @@ ASSUMPTIONS = [
     'skeleton',
     'assert_exists / assert_single are not in the family: the evaluator '
     'does not model run-time errors',
-    'the bare-type-name semantics of the evaluator is exact-type (no '
-    'inheritance): queries that select a supertype by name are skipped for '
-    'schema B, supertypes are reached through links',
+    'the evaluator matches bare type names and [is T] by exact type; its two '
+    'lookups (eval_objref, eval_intersect) are replaced from the harness by '
+    'subtype-aware ones driven by the schema lineage, so that a type denotes '
+    'its objects and those of every subtype (the documented semantics)',
 ]
 
 CARD_OK = {'ONE': lambda n: n == 1, 'AT_MOST_ONE': lambda n: n <= 1,
@@ -48,6 +49,41 @@ def winit():
         'B': [qx.mk(o) for o in qx.dbs_B()],
     }
     _W['schema'] = {'A': qx.schema('A'), 'B': qx.schema('B')}
+    _install_inheritance(S['T'])
+
+
+# The evaluator matches a bare type name and `[is T]` against the exact
+# type of an object.  The documented semantics is "objects of that type or of
+# any subtype": the two lookups are replaced (from the harness, not in the
+# repository) by subtype-aware ones driven by the schema's own lineage.
+SUBTYPES = {}
+
+
+def _install_inheritance(T):
+    from edb.schema import objtypes as s_objtypes
+    SUBTYPES.clear()
+    for which in ('A', 'B'):
+        sch = _W['schema'][which]
+        for t in sch.get_objects(type=s_objtypes.ObjectType,
+                                 exclude_stdlib=True):
+            n = t.get_name(sch)
+            if n.module != 'default':
+                continue
+            SUBTYPES[n.name] = {n.name} | {
+                d.get_name(sch).name for d in t.descendants(sch)}
+
+    def eval_objref(name, ctx):
+        if name == 'FreeObject':
+            return [T.mk_free_object()]
+        names = SUBTYPES.get(name, {name})
+        return [T.Obj(obj["id"]) for obj in ctx.db.data.values()
+                if obj["__type__"] in names]
+
+    def eval_intersect(base, ptr, ctx):
+        typ = ctx.db.data[base.id]["__type__"]
+        return [base] if typ in SUBTYPES.get(ptr.typ, {ptr.typ}) else []
+    T.eval_objref = eval_objref
+    T.eval_intersect = eval_intersect
 
 
 def keyify(v):
@@ -112,9 +148,6 @@ def work(task):
     tight = collections.Counter()
     bad = []
     for q, fam in qs:
-        if which == 'B' and supertype_by_name(q):
-            stats['skipped-evaluator-has-no-inheritance'] += 1
-            continue
         try:
             ir = qlcompiler.compile_ast_to_ir(
                 edgeql.parse_query(q), schema,
